@@ -13,7 +13,24 @@ VARIABLE l
 Tr == ndJsonDeserialize(IOEnv.TRACE)
 SetOfSeq(q) == {q[i] : i \in 1..Len(q)}
 
+\* lifecycle events (harness/life_h.c): heap constructor under a fault plan, fill, whole-object swap with a second object,
+\* destruction of both with a counting destructor.  A failing constructor request is reported by a null result and leaves
+\* nothing behind; otherwise the swap exchanges the complete contents (the buffer has no swap), destruction hands every
+\* owned element to the destructor exactly once (queue: parked nodes included; string: none) and the ledger ends empty.
+LifeOK(e) ==
+  LET A == [i \in 1..e.na |-> 9 + i]  B == [i \in 1..e.nb |-> 49 + i]
+      A2 == IF e.fam = "que" /\ e.na > 1 THEN Tail(A) ELSE A            \* the queue run parks its first element before the swap
+  IN
+  /\ LedgerRun([live |-> {}, ok |-> TRUE], e.reqs, 1).ok
+  /\ (e.plan = "single" => e.failed >= 1 /\ e.null = 1)
+  /\ (e.plan = "none" => e.failed = 0 /\ e.null = 0)
+  /\ (e.null = 0 =>
+        /\ (IF e.fam = "buf" THEN e.a = A /\ e.swapped = 0 ELSE e.swapped = 1 /\ e.a = B /\ e.b = A2)
+        /\ e.dtor_calls = (CASE e.fam = "vec" -> e.na + e.nb [] e.fam = "buf" -> e.na [] e.fam = "que" -> e.na + e.nb [] OTHER -> 0))
+  /\ e.leak = <<>> /\ e.badfree = 0
+
 Accept(e) ==
+  IF e.op = "life" THEN LifeOK(e) ELSE
   /\ e.failed >= 1                                          \* the plan did hit a request of this call
   /\ LedgerRun([live |-> SetOfSeq(e.live0), ok |-> TRUE], e.reqs, 1).ok      \* ledger discipline
   /\ e.fail.ret_fail = 1                                    \* FailureIsReported
